@@ -37,6 +37,7 @@ var goTypes = map[string]reflect.Type{
 	"[]string": reflect.TypeOf([]string(nil)), "map[string]int64": reflect.TypeOf(map[string]int64(nil)),
 	"Payload": reflect.TypeOf(Payload{}), "*Payload": reflect.TypeOf((*Payload)(nil)), "map[string]string": reflect.TypeOf(map[string]string(nil)),
 	"Dims": reflect.TypeOf(Dims{}), "Author": reflect.TypeOf(Author{}), "*Author": reflect.TypeOf((*Author)(nil)), "Deep": reflect.TypeOf(Deep{}),
+	"Addr": reflect.TypeOf(Addr{}), "*Addr": reflect.TypeOf((*Addr)(nil)),
 }
 
 var genTypes = map[string]reflect.Type{}
@@ -75,6 +76,8 @@ var fieldPool = []struct {
 	{"*Payload", []string{"serializer:json"}}, {"map[string]string", []string{"serializer:gob"}},
 	{"Dims", []string{"embedded;embeddedPrefix:{c}_"}}, {"Author", []string{"embedded;embeddedPrefix:{c}_"}},
 	{"*Author", []string{"embedded;embeddedPrefix:{c}_"}}, {"Deep", []string{"embedded;embeddedPrefix:{c}_"}},
+	{"Addr", []string{"embedded;embeddedPrefix:{c}_"}}, {"Addr", []string{"embedded;embeddedPrefix:{c}_"}}, {"*Addr", []string{"embedded;embeddedPrefix:{c}_"}},
+	{"Dims", []string{"embedded;embeddedPrefix:{c}_"}},
 }
 
 // genSpec draws a struct type: a key, the marker column, 3..12 further fields.
